@@ -145,6 +145,21 @@ def replay(case):
             pw = np.array([float(f(T[:, k])) for k in range(T.shape[1])])
             if arr.shape != pw.shape or np.max(np.abs(arr - pw)) > 1e-12 * max(1.0, np.max(np.abs(pw))):
                 out.append(('%s:array' % fam, 'evaluation on an array %r differs from pointwise %r' % (arr, pw)))
+            # a fresh object (dimension not given) whose FIRST use is on an array of points (as gram / hocur / the data-driven
+            # methods do), then differentiated at a single point (as tgEDMD does with the same basis list)
+            if not with_dim:
+                fr = make(cfg, False)
+                arr2 = np.asarray(fr(T), dtype=float)
+                gf = np.asarray(fr.gradient(t), dtype=float)
+                pf = [float(fr.partial(t, j)) for j in range(dim)]
+                bad = arr2.shape != pw.shape or np.max(np.abs(arr2 - pw)) > 1e-12 * max(1.0, np.max(np.abs(pw))) or \
+                    gf.shape != (dim,) or any(not close(gf[j], grad[j]) for j in range(dim)) or any(not close(pf[j], grad[j]) for j in range(dim))
+                if not bad and fam not in ('pgauss', 'bspline'):
+                    Hf = np.asarray(fr.hessian(t), dtype=float)
+                    bad = Hf.shape != (dim, dim) or any(not close(Hf[j, l], hess[j][l]) for j in range(dim) for l in range(dim))
+                if bad:
+                    out.append(('%s:array-first' % fam, 'object first used on an array of %d points, then differentiated at one point: gradient %r, '
+                                'expected %r (cfg %r)' % (T.shape[1], gf, grad, _short(cfg))))
         except Exception as e:
             out.append(('%s:exception:%s' % (fam, type(e).__name__), '%r (cfg %r)' % (e, _short(cfg))))
         if out:
